@@ -35,6 +35,16 @@ $(B)/bin/iosimP: $(IOP_OBJS)
 	@$(CXX) $^ -o $@ $(IO_LIBS)
 ioplain: $(B)/bin/iosimP
 
+# coverage build for reach probes (tools/reach.py): which reader/writer code the workloads execute
+IOC_OBJS := $(foreach s,$(IO_SRCS),$(B)/ioC/$(s).o)
+$(B)/ioC/%.o: sim/io/%.cpp Makefile
+	@mkdir -p $(@D)
+	@$(CXX) -std=c++14 -O0 -g0 --coverage -DNDEBUG -I$(REPO)/include -Wno-deprecated-declarations -MMD -MP $(IO_DEFS) -DSIM_POISON_BYTE=0 -c $< -o $@ 2> $@.log || { cat $@.log | head -60; echo "BUILD-FAIL $@"; exit 1; }
+$(B)/bin/iosimC: $(IOC_OBJS)
+	@mkdir -p $(@D)
+	@$(CXX) --coverage $^ -o $@ $(IO_LIBS)
+iocov: $(B)/bin/iosimC
+
 $(B)/bin/iosimA: $(IOA_OBJS)
 	@mkdir -p $(@D)
 	@$(CXX) $(SAN) $^ -o $@ $(IO_LIBS)
